@@ -41,7 +41,7 @@ def bounds(tier):
 
 
 FORMS = ["kwargs", "tuple", "string", "Feature", "noseqid", "start_only", "end_only",
-         "all_features", "all_features_str", "features_of_type", "children", "parents"]
+         "all_features", "all_features_str", "features_of_type", "children", "parents", "interleaved"]
 
 
 def build(kind, tier, wd):
@@ -158,6 +158,16 @@ def body(ch, ctx):
             got = db.region(seqid="c1", end=e, completely_within=cw, strand=strand, featuretype=ft)
             may = brute(feats, "c1", -10 ** 12, e, False, strand, ft)
             must = [x for x in may if (FE[kind, ctx.tier][x][1] < e if cw else FE[kind, ctx.tier][x][0] < e)]
+    elif form == "interleaved":
+        # two region() results consumed in lock step on one FeatureDB object
+        other = [f.id for f in db.region(region=("c2", 1, cs[-1]))]
+        alone = [f.id for f in db.region(region=lim_t, completely_within=cw, strand=strand, featuretype=ft)]
+        pairs = [(a.id, b.id) for a, b in zip(db.region(region=lim_t, completely_within=cw, strand=strand, featuretype=ft),
+                                              db.region(region=("c2", 1, cs[-1])))]
+        exp = brute(feats, "c1", s, e, cw, strand, ft)
+        ctx.check(pairs == list(zip(alone, other)), "interleaved-region-results-differ", sig, start=s, end=e, got=pairs[:6],
+                  expected=list(zip(alone, other))[:6])
+        got = db.region(region=lim_t, completely_within=cw, strand=strand, featuretype=ft)
     elif form == "all_features":
         got = db.all_features(limit=lim_t, completely_within=cw, strand=strand, featuretype=ft)
         exp = brute(feats, "c1", s, e, cw, strand, ft)
